@@ -528,6 +528,22 @@ func runEarlyErrors(r *engine.Run) {
 			try(fmt.Sprintf("regex/%d/%d", bi, fi), "x = /"+b+"/"+f+" ;")
 		}
 	}
+	// structural regular expression bodies: each early-error atom (and a few
+	// valid controls) at top level, inside every kind of group and nesting, in
+	// each alternative, after each kind of atom, and inside classes.
+	atoms := []string{"^*", "$+", "\\b?", "\\B{2}", "^{1,}", "${2,3}", "^+?", "*", "+", "?", "{2}", "{2,}", "a**", "a+*", "a?{2}", "a{1}{2}", "a{2,1}", "a{3,2}?", ")", "(", "(?", "(?a)", "(?<a)",
+		"[", "[z-a]", "[a-\\d-z]", "\\", "a|*", "(|*)", "a", "^", "$", "\\b", "a*", "a{2}", "[*]", "\\*", "(?:)", "()"}
+	places := []string{"X", "(X)", "(?:X)", "((X))", "(?:(X))", "((?:X))", "(((X)))", "(?=X)", "(?!X)", "X|b", "a|X", "a|X|b", "(a|X)", "(?:X|b)", "(a)|(X)", "aX", "\\dX", "[a]X", "(a)X", ".X", "\\bX",
+		"Xa", "X(a)", "a(X)b", "(a(X))", "(X)(X)", "(X)*", "(?:X)+", "[X]", "[^X]", "[aX]", "[X-]", "(a)\\1X", "a{2}X", "a|(X{2})", "((X)x)"}
+	for ai, a := range atoms {
+		for pi, pl := range places {
+			body := strings.ReplaceAll(pl, "X", a)
+			for fi, fl := range []string{"", "g"} {
+				try(fmt.Sprintf("restruct/%d/%d/%d", ai, pi, fi), "x = /"+body+"/"+fl+" ;")
+			}
+			try(fmt.Sprintf("restruct/%d/%d/test", ai, pi), "hit = 1 ; /"+body+"/ . test ( a ) ;")
+		}
+	}
 	r.Bound("cases", fmt.Sprint(n))
 	h.finish("earlyerrors")
 }
@@ -565,6 +581,33 @@ func runLexErrors(r *engine.Run) {
 			}
 		}
 	}
+	// positions where the parser admits a WIDER token class than an expression
+	// does (property names, names after a dot, labels, declared names, jump
+	// labels, regexp flags ...): the erroneous token must be rejected there too.
+	widening := []string{
+		"x = { BAD : 1 }", "x = { BAD : hit }", "( { BAD : 1 } )", "x = { a : 1 , BAD : 2 }", "x = { BAD : 1 , a : 2 }", "x = { get BAD ( ) { } }", "x = { set BAD ( v ) { } }",
+		"x = { get BAD ( ) { return 1 } , set BAD ( v ) { } }", "x = { get : BAD }", "x = { BAD }", "x = { BAD ( ) { } }",
+		"a . BAD", "a . BAD ( )", "a . BAD = 1", "a . BAD . b", "a . b . BAD ;", "this . BAD",
+		"BAD : ;", "BAD : while ( 0 ) ;", "L : BAD : ;", "L : for ( ; ; ) break BAD", "L : for ( ; ; ) continue BAD ;", "L : for ( ; ; ) { break BAD }",
+		"function BAD ( ) { }", "function f ( BAD ) { }", "function f ( a , BAD ) { }", "x = function BAD ( ) { }", "x = function ( BAD ) { }", "x = { set a ( BAD ) { } }",
+		"var BAD", "var BAD = 1", "var a , BAD", "var a = 1 , BAD = 2 ;", "for ( var BAD in o ) ;", "for ( var BAD = 0 ; ; ) break ;", "for ( BAD in o ) ;", "for ( a in BAD ) ;",
+		"try { } catch ( BAD ) { }", "switch ( a ) { case BAD : }", "switch ( a ) { case BAD : x ( ) ; default : }", "switch ( BAD ) { }",
+		"x = /a/BAD", "x = /a/ BAD", "x = /a/gBAD ;", "new BAD", "new BAD ( )", "typeof BAD", "delete BAD", "a [ BAD ]", "f ( BAD )", "f ( a , BAD )", "( BAD )", "[ BAD ]", "[ a , BAD ]",
+		"BAD ++", "++ BAD", "BAD = 1", "a ? BAD : b", "a ? b : BAD", "a , BAD", "a + BAD", "BAD + a", "a in BAD", "BAD in a", "if ( BAD ) ;", "while ( BAD ) ;", "do ; while ( BAD )",
+		"with ( BAD ) ;", "throw BAD", "function f ( ) { return BAD }", "hit = 1 ; x = { BAD : hit } ; hit = 2",
+	}
+	for bi, b := range bad {
+		for wi, w := range widening {
+			if k := fmt.Sprintf("w/%d/%d", bi, wi); mine(r, k) {
+				h.one(k, strings.ReplaceAll(w, "BAD", b))
+			}
+			if k := fmt.Sprintf("wc/%d/%d", bi, wi); mine(r, k) {
+				// the same with no white space around the token
+				h.one(k, strings.ReplaceAll(strings.ReplaceAll(strings.ReplaceAll(w, " BAD ", b), " BAD", b), "BAD ", b))
+			}
+		}
+	}
+	r.Bound("widening_contexts", fmt.Sprint(len(widening)))
 	r.Bound("bad_tokens", fmt.Sprint(len(bad)))
 	r.Bound("separators", fmt.Sprint(len(seps)))
 	r.Bound("next_tokens", fmt.Sprint(len(next)))
